@@ -49,6 +49,7 @@ import (
 	"github.com/yandex/pandora/core/aggregator"
 	"github.com/yandex/pandora/core/aggregator/netsample"
 	"github.com/yandex/pandora/core/config"
+	"github.com/yandex/pandora/core/datasink"
 	"github.com/yandex/pandora/core/engine"
 	coreimport "github.com/yandex/pandora/core/import"
 	"github.com/yandex/pandora/core/schedule"
@@ -277,14 +278,14 @@ func parsePhout(run int, line []byte) interface{} {
 func parseJSONLine(run int, line []byte) interface{} {
 	dec := json.NewDecoder(bytes.NewReader(line))
 	dec.DisallowUnknownFields()
-	var a absSample
+	var a jsonSample
 	if err := dec.Decode(&a); err != nil || a.F == nil {
 		return map[string]interface{}{"ev": "BadLine", "run": run, "raw": string(line)}
 	}
 	if _, err := dec.Token(); err != io.EOF {
 		return map[string]interface{}{"ev": "BadLine", "run": run, "raw": string(line)}
 	}
-	return map[string]interface{}{"ev": "JLine", "run": run, "s": a}
+	return map[string]interface{}{"ev": "JLine", "run": run, "s": a.project()}
 }
 
 // recFs: an afero mem fs whose created files tee everything into a lineSink.
@@ -571,6 +572,39 @@ func buildAggregator2(cfg aggRun, w *vt.Writer) (core.Aggregator, func() (int, i
 		}
 		return a, content, nil
 	}
+	if cfg.kind == "test" {
+		// aggregator.NewTest keeps every sample in memory (GetSamples); its content is read when Run has returned
+		t := aggregator.NewTest()
+		sink.parse = parseJSONLine
+		return t, nil, func() {
+			for _, smp := range t.GetSamples() {
+				b, err := json.Marshal(smp)
+				if err != nil {
+					panic(err)
+				}
+				sink.Write(append(b, '\n'))
+			}
+			sink.mu.Lock()
+			defer sink.mu.Unlock()
+			sink.w.Emit(map[string]interface{}{"ev": "StdDrained", "run": sink.run, "partial": len(sink.pending)})
+		}
+	}
+	if cfg.kind == "jsonlines" && cfg.sinkForm == "membuffer" {
+		// the repository's in-memory data sink (datasink.NewBuffer): read when Run has returned
+		buf := datasink.NewBuffer()
+		sink.parse = parseJSONLine
+		conf := aggregator.DefaultJSONLinesAggregatorConfig()
+		conf.Sink = buf
+		conf.FlushInterval = time.Duration(cfg.flushMs) * time.Millisecond
+		conf.ReporterConfig.SampleQueueSize = cfg.q
+		conf.JSONLineEncoderConfig.BufferSizeConfig.BufferSize = datasize.ByteSize(cfg.bufSize())
+		return aggregator.NewJSONLinesAggregator(conf), nil, func() {
+			sink.Write(buf.Bytes())
+			sink.mu.Lock()
+			defer sink.mu.Unlock()
+			sink.w.Emit(map[string]interface{}{"ev": "StdDrained", "run": sink.run, "partial": len(sink.pending)})
+		}
+	}
 	a, content := ctorAggregator(cfg, w, sink)
 	return a, content, nil
 }
@@ -654,7 +688,87 @@ func (c logCore) Write(e zapcore.Entry, _ []zapcore.Field) error {
 }
 func (c logCore) Sync() error { return nil }
 
-func (cfg aggRun) sample(r *rand.Rand, g, i int) (absSample, core.Sample) {
+// jsonSample: what is reported to the jsonlines (and the in-memory test) aggregator: the abstract sample plus, in one
+// of three reports, values of every JSON kind - a map (key order: sort-map-keys), a float (marshal-float-with-6-digits:
+// the values are exact in six decimals), a bool, nested arrays / an empty object, bytes (base64), a 64-bit number, a
+// nil / non-nil pointer.  jsonSampleEv is its projection for the trace: numbers that do not fit a TLC integer and
+// floats travel as text.
+type jsonNest struct {
+	K []string `json:"k"`
+	E struct{} `json:"e"`
+}
+type jsonExtra struct {
+	M    map[string]int `json:"m"`
+	Fl   float64        `json:"fl"`
+	Ok   bool           `json:"ok"`
+	Nest jsonNest       `json:"nest"`
+	B    []byte         `json:"b"`
+	U    uint64         `json:"u"`
+	P    *int           `json:"p"`
+}
+type jsonSample struct {
+	absSample
+	X *jsonExtra `json:"x,omitempty"`
+}
+type jsonExtraEv struct {
+	M  map[string]int `json:"m"`
+	Fl string         `json:"fl"`
+	Ok bool           `json:"ok"`
+	K  []string       `json:"k"`
+	B  string         `json:"b"`
+	U  string         `json:"u"`
+	P  string         `json:"p"`
+}
+type jsonSampleEv struct {
+	absSample
+	X *jsonExtraEv `json:"x,omitempty"`
+}
+
+func (js jsonSample) project() jsonSampleEv {
+	ev := jsonSampleEv{absSample: js.absSample}
+	if js.X != nil {
+		x := js.X
+		p := "nil"
+		if x.P != nil {
+			p = strconv.Itoa(*x.P)
+		}
+		m := x.M
+		if m == nil {
+			m = map[string]int{}
+		}
+		k := x.Nest.K
+		if k == nil {
+			k = []string{}
+		}
+		ev.X = &jsonExtraEv{M: m, Fl: strconv.FormatFloat(x.Fl, 'g', -1, 64), Ok: x.Ok, K: k,
+			B: fmt.Sprintf("%x", x.B), U: strconv.FormatUint(x.U, 10), P: p}
+	}
+	return ev
+}
+
+func genExtra(r *rand.Rand) *jsonExtra {
+	x := &jsonExtra{M: map[string]int{}}
+	keys := []string{"b", "a", "key with blank", "\"q\"", "ü", "z\n", "0"}
+	for n := r.Intn(4); n > 0; n-- {
+		x.M[keys[r.Intn(len(keys))]] = r.Intn(2000) - 1000
+	}
+	x.Fl = []float64{0, 0.5, -1.25, 3.125, 123456.5, 0.015625, -0.000001, 42}[r.Intn(8)]
+	x.Ok = r.Intn(2) == 0
+	x.Nest.K = []string{}
+	for n := r.Intn(3); n > 0; n-- {
+		x.Nest.K = append(x.Nest.K, []string{"", "x", "two\nlines", "tab\there", "]", "\u2029"}[r.Intn(6)])
+	}
+	x.B = make([]byte, r.Intn(5))
+	r.Read(x.B)
+	x.U = []uint64{0, 1, 1 << 53, math.MaxUint64, 4294967296}[r.Intn(5)]
+	if r.Intn(2) == 0 {
+		v := r.Intn(100) - 50
+		x.P = &v
+	}
+	return x
+}
+
+func (cfg aggRun) sample(r *rand.Rand, g, i int) (interface{}, core.Sample) {
 	a := genSample(r, g, i)
 	if cfg.kind == "log" || cfg.kind == "discard" {
 		return a, &tokSample{G: g, I: i, returned: tokCounter(cfg.run)}
@@ -671,7 +785,11 @@ func (cfg aggRun) sample(r *rand.Rand, g, i int) (absSample, core.Sample) {
 	if r.Intn(6) == 0 {
 		a.Tag += []string{"\n", "\t", "line1\nline2", "\"", "\\", "\r\n", "\u2028", "}{", "<&>"}[r.Intn(9)]
 	}
-	return a, a
+	js := jsonSample{absSample: a}
+	if r.Intn(3) == 0 {
+		js.X = genExtra(r)
+	}
+	return js.project(), js
 }
 
 func emitRunEnd(w *vt.Writer, cfg aggRun, err error, timeout bool) {
@@ -1092,7 +1210,7 @@ func aggMain(args []string) {
 		if other {
 			// log: blocking queue of 128, written through to the logger; discard: nothing at all.
 			// late mode = every report is made before Run starts: discard must not block, log has room for 128
-			cfg.kind = []string{"log", "discard"}[n%2]
+			cfg.kind = []string{"log", "discard", "log", "discard", "test", "test"}[n%6]
 			cfg.mode = []string{"normal", "late", "burst"}[r.Intn(3)]
 			cfg.q = 128
 			room := 128
@@ -1159,12 +1277,15 @@ func aggMain(args []string) {
 		cfg.build, cfg.shape, cfg.typ, cfg.sinkForm = "ctor", "", cfg.kind, ""
 		if cfg.kind == "jsonlines" {
 			cfg.sinkForm = "buffer"
+			if n%4 == 2 && cfg.via == "direct" && cfg.fault == "" && cfg.mode != "dropstress" {
+				cfg.sinkForm = "membuffer"
+			}
 		}
 		useFactory := n%2 == 1
 		if other {
 			useFactory = (n/2)%2 == 1 // kind alternates with n there
 		}
-		if useFactory && cfg.mode != "dropstress" {
+		if useFactory && cfg.mode != "dropstress" && cfg.kind != "test" {
 			cfg.build = "factory"
 			cfg.shape = []string{"viper", "yaml"}[(n/2+n/12)%2]
 			if cfg.kind == "jsonlines" {
